@@ -209,7 +209,13 @@ def main():
                 shutil.rmtree(copy, ignore_errors=True)
                 subprocess.run(["rsync", "-a", "--exclude", ".git", "/repo/", copy + "/"], check=True)
                 if name != "unmodified":
-                    apply(copy, mut)
+                    try:
+                        apply(copy, mut)
+                    except RuntimeError as ex:
+                        res[name] = {"exit": "not-applicable", "violations": 0, "clauses": [str(ex)[:160]], "wall_s": 0}
+                        print(f"{cid} {name}: DOES NOT APPLY to the current tree ({str(ex)[:100]})")
+                        sys.stdout.flush()
+                        continue
                 env = dict(os.environ, ALDYSIM_REPO=copy, ALDYSIM_NO_EVIDENCE="1",
                            ALDYSIM_REPLAY_DIR=os.path.join(work, "replays"))
                 t = time.time()
